@@ -368,3 +368,89 @@ Proof.
   - exists (sched_leave 0), [APumpEmit 0]; destruct k1; vm_compute; (split; [reflexivity|split; [discriminate|reflexivity]]).
   - exists (sched_leave 0), [APumpEmit 0]; destruct k1; vm_compute; (split; [reflexivity|split; [discriminate|reflexivity]]).
 Qed.
+
+(* ---- the cancel channel as subscribed today: a request made before run_task starts is lost ---- *)
+Lemma inv_step_sub s a s' : Inv s -> step_sub s a = Some s' -> Inv s'.
+Proof.
+  destruct a; try (exact (inv_step s _ s')).
+  destruct s as [m p0 p1 ex fl tr]. unfold Inv, step_sub.
+  cbn [s_main s_p0 s_p1 s_child_exited s_cancel_flag s_trace].
+  intros HI HS. destruct m; try discriminate; crush.
+Qed.
+
+Lemma inv_fold_sub sched : forall s, Inv s -> Inv (fold_left step_skip_sub sched s).
+Proof.
+  induction sched as [|a r IH]; intros s H; cbn [fold_left]; [exact H|]. apply IH.
+  unfold step_skip_sub. destruct (step_sub s a) as [s'|] eqn:E; [eapply inv_step_sub; eauto|exact H].
+Qed.
+
+Theorem lifecycle_language_sub : forall sched : list act,
+  let s := run_sub sched in
+  let t := trace s in
+  r_prefix_ok (recognise t) = true /\ (s_main s = MEnd <-> r_complete (recognise t) = true).
+Proof.
+  intros sched s t. pose proof (inv_fold_sub sched sys0 inv0) as HI. fold (run_sub sched) in HI. fold s in HI.
+  subst t. unfold trace. unfold Inv in HI. destruct (s_main s) eqn:Em.
+  - destruct HI as (Ht & _). rewrite Ht. cbn. split; [reflexivity|]. split; discriminate.
+  - destruct HI as (Hr & _). rewrite Hr. cbn. split; [reflexivity|]. split; discriminate.
+  - destruct HI as (Hr & _). rewrite Hr. cbn. split; [reflexivity|]. split; discriminate.
+  - destruct HI as (Hr & _). rewrite Hr. cbn. split; [reflexivity|]. split; discriminate.
+  - destruct HI as (Hr & _). rewrite Hr. destruct cancelled; cbn; (split; [reflexivity|]); split; discriminate.
+  - destruct HI as (Hr & _). rewrite Hr. cbn. split; [reflexivity|]. split; discriminate.
+  - destruct HI as (_ & _ & [[Hr _]|[Hr _]]); rewrite Hr; cbn; (split; [reflexivity|]); split; discriminate.
+  - destruct HI as (_ & _ & [st Hr]). rewrite Hr. cbn. split; [reflexivity|]. split; reflexivity.
+Qed.
+
+(* no pending request and no cancel-request frame so far: stays so as long as nobody asks again *)
+Definition no_cancel (s : sys) : Prop := s_cancel_flag s = false /\ ~ In LCancelReq (s_trace s).
+
+Lemma no_cancel_step s a s' : a <> ACancel -> no_cancel s -> step_sub s a = Some s' -> no_cancel s'.
+Proof.
+  destruct s as [m p0 p1 ex fl tr]. unfold no_cancel, step_sub, step, emit, set_main, set_pump, pump_of.
+  cbn [s_main s_p0 s_p1 s_child_exited s_cancel_flag s_trace]. intros Ha [Hf Ht] H. subst fl.
+  destruct a; try congruence;
+  repeat match type of H with
+  | context [match ?x with _ => _ end] => destruct x; try discriminate H
+  | context [if ?x then _ else _] => destruct x; try discriminate H
+  end; inversion H; subst; cbn [s_cancel_flag s_trace]; (split; [reflexivity|]);
+  try exact Ht; cbn [In]; intros [E|E]; try discriminate E; exact (Ht E).
+Qed.
+
+Lemma no_cancel_fold more : (forall a, In a more -> a <> ACancel) ->
+  forall s, no_cancel s -> no_cancel (fold_left step_skip_sub more s).
+Proof.
+  induction more as [|a r IH]; intros Hm s Hs; cbn [fold_left]; [exact Hs|].
+  apply IH; [intros b Hb; apply Hm; right; exact Hb|].
+  unfold step_skip_sub. destruct (step_sub s a) as [s'|] eqn:E; [|exact Hs].
+  eapply no_cancel_step; eauto. apply Hm. left. reflexivity.
+Qed.
+
+(* any number of requests before run_task's first statement, then anything at all except a new request:
+   no cancel-request frame ever appears (and so no cancelled status): the acknowledged request is lost *)
+Theorem early_cancel_never_recorded : forall (n : nat) (more : list act),
+  (forall a, In a more -> a <> ACancel) ->
+  ~ In LCancelReq (trace (run_sub (repeat ACancel n ++ ASpawnFrame :: more))).
+Proof.
+  intros n more Hm. unfold run_sub, trace. rewrite fold_left_app. cbn [fold_left].
+  assert (H0 : forall s, s_main s = MStart -> s_trace s = [] ->
+               s_main (fold_left step_skip_sub (repeat ACancel n) s) = MStart
+               /\ s_trace (fold_left step_skip_sub (repeat ACancel n) s) = []).
+  { induction n as [|k IH]; intros s H1 H2; cbn [repeat fold_left]; [split; assumption|].
+    apply IH; unfold step_skip_sub, step_sub, step; cbn [s_main s_trace]; assumption. }
+  destruct (H0 sys0 eq_refl eq_refl) as [Hm0 Ht0].
+  set (s1 := fold_left step_skip_sub (repeat ACancel n) sys0) in *.
+  assert (Hn : no_cancel (step_skip_sub s1 ASpawnFrame)).
+  { unfold step_skip_sub, step_sub. rewrite Hm0. unfold no_cancel. cbn [s_cancel_flag s_trace]. rewrite Ht0.
+    split; [reflexivity|]. cbn [In]. intros [E|[]]. discriminate E. }
+  pose proof (no_cancel_fold more Hm _ Hn) as [_ Hf].
+  intros Hin. apply Hf. apply in_rev. exact Hin.
+Qed.
+
+(* the same request one step later (after run_task subscribed) is taken *)
+Example early_cancel_example :
+  trace (run_sub [ACancel; ASpawnFrame; AStartRunning; ATakeCancel; AChildExit; AWaitReturns true;
+                  APumpEof 0; APumpEof 1; AJoined; AEmitFinal]) = [LSpawned; LRunning; LStatus 2]
+  /\ trace (run_sub [ASpawnFrame; ACancel; AStartRunning; ATakeCancel; AChildExit; AKillWaitReturns true;
+                     APumpEof 0; APumpEof 1; AJoined; AEmitCancelled; AEmitFinal])
+     = [LSpawned; LRunning; LCancelReq; LCancelled; LStatus 3].
+Proof. vm_compute. split; reflexivity. Qed.
